@@ -310,4 +310,43 @@ CLAIMS.update({
         note=_WORLD_NOTE, design="4/C31"),
 })
 
+CLAIMS.update({
+    "C16": dict(
+        technique="definitional polynomial algebra (Poly.tla) and object state machine TaylorObj.tla (pool of 3 expansions, "
+                  "22 actions incl. in-place twins and slices); every history of its TLC graph replayed on live "
+                  "Taylor3D and Taylor2D pools; exact evaluation at Pythagorean points decided by TLC; all class index "
+                  "tables checked entry by entry (Check_C16.tla)",
+        text="Sum, difference, negation, scalar/matrix products, product of expansions, slices and item assignment, "
+             "truncate, reduce, separate, construction from direction/matrix pairs commute with evaluation (f_n = 2^n) "
+             "for every object of the pool after every step (aliasing between operands, results and bystanders is "
+             "visible); ind2pow/pow2ind/powlrange/directmult/powercoeff/Lproj verified exhaustively for Lmax.",
+        note="Trusts TLC and the transport of floats as <<nearest integer, residual>> with a spec-level tolerance. "
+             "Two thorough-tier known findings (real-dtype constant, duplicate labels in item assignment).",
+        design="4/C16"),
+    "C17": dict(
+        technique="exact integer oracle in TLA+ (Poly.tla: substitution and truncated geometric series) for rotate / "
+                  "irotate / inv, decided by TLC (Check_C17.tla)",
+        text="rotate(M)(p) = T(Mp) for invertible non-orthogonal integer M mapping Pythagorean points onto Pythagorean "
+             "points and parity-consistent expansions; inv(N)*T and T*inv(N) are the identity through order N for 1x1, "
+             "2x2, 3x3 leading matrices that do not commute with the higher-order coefficients, N = 0..2, 2D and 3D.",
+        note="Trusts TLC and the float transport; decides the property on small integer coefficients.",
+        design="4/C17"),
+    "C29": dict(
+        technique="definitional setup model (SetupW.tla over SuperW + OccOps, the pure form of SupercellOcc's ApplyG / "
+                  "Reorder proved equal by TLC) vs makesupercells of both calculators (Check_C29.tla)",
+        text="Per state: exactly the named defects at the named sites; per transition: one moving atom of the jumping "
+             "species displaced by the jump (minus the vacancy displacement for omega0/1/2); per recorded entry: g is a "
+             "geometric supercell symmetry and (g.state).reorder(mapping) equals the endpoint, None only if no state is "
+             "equivalent; too-small supercells warn. Hosts on several Wyckoff positions, >= 3 species, non-diagonal cells.",
+        note=_WORLD_NOTE, design="4/C29"),
+    "C30": dict(
+        technique="archive model (Archive.tla: TagBijection, DepsResolvable, ApplyTrans = the perl script's semantics) vs "
+                  "real tarballs, real runs of trans.pl and make -n (Check_C30.tla)",
+        text="Tag map bijection onto state/transition directories, every POSCAR reads back to the given supercell, the "
+             "transformation files map the relaxed state onto the endpoint both by the spec's ApplyTrans and by "
+             "actually running trans.pl, every Makefile prerequisite exists or is produced.",
+        note=_WORLD_NOTE + " Uses perl and make from the sandbox; archives are extracted to a temporary directory.",
+        design="4/C30"),
+})
+
 NOT_YET ="check not built yet in this round (planned in DESIGN.md section 4)"
